@@ -253,9 +253,8 @@ func (queue *Queue) PopQos(qosList []*qos.AmqpQos) *amqp.Message {
 		allowed := true
 		charged := make([]*qos.AmqpQos, 0, len(qosList))
 		for _, q := range qosList {
-			if !q.IsActive() {
-				continue
-			}
+			// every window is charged, also one without a limit (Inc never refuses then): settling decrements
+			// every window of the delivery, and a limit set later must see the deliveries that are already out
 			if !q.Inc(1, uint32(message.BodySize)) {
 				allowed = false
 				// release what was already reserved in the previous qos
